@@ -17,7 +17,7 @@ RULES = {
     "cycle-check rejection (C06 analysis on the sort's CFG)",
     "R2": "ownership-preserving relinking: nodes are relinked only through Graph.extend, each bucket of sorted nodes is "
     "keyed by node.graph and extended into the graph that keys it; the sort never touches the node list directly",
-    "R3": "nested scopes: nodes of GRAPH and of GRAPHS attributes are both counted as predecessors (S1); the pass sorts "
+    "R3": "nested scopes: nodes of GRAPH and of GRAPHS attributes are both counted as predecessors (S1), in the sort and in the recursive iterator it collects its node set with; the pass sorts "
     "the main graph and every function",
     "R4": "edge completeness: in the loop over a node's inputs, recording the producer of the input as a predecessor is "
     "unconditional - the only way to skip it is the None test of the input itself (no memo, filter or early exit decides "
@@ -105,6 +105,15 @@ def run(ctx):
     it = [c for c in calls_in(f) if (dotted_of(c.func) or "").endswith("RecursiveGraphIterator")]
     ctx.check("R3", "sort traverses the graph recursively (all nested nodes take part)", bool(it), f, f.node,
               "nodes of nested graphs are not collected", how="RecursiveGraphIterator(self)", nontrivial=False)
+    # … and the traversal the node set comes from descends into GRAPH and GRAPHS attributes alike (S1 on the iterator)
+    if it:
+        nt = 0
+        for g, node, ok, detail, label in s1_sites(repo, {"onnx_ir.traversal"}):
+            nt += 1
+            ctx.check("R3", f"S1 {g.local} (node set of the sort): {label}"[:150], ok, g, node,
+                      detail + " - nodes nested below the shallower branch are missing from the sort's node set, so producers they depend on are not ordered before their control-flow node",
+                      how="GRAPH/GRAPHS sibling agreement in the traversal Graph.sort collects its nodes with", construct=f"S1 traversal {label}")
+        ctx.require(nt >= 1, "GRAPH/GRAPHS dispatch in the recursive iterator not found")
     p = repo.func("onnx_ir.passes.common.topological_sort:TopologicalSortPass.call")
     sorts = [norm(c.func) for c in calls_in(p) if isinstance(c.func, ast.Attribute) and c.func.attr == "sort"]
     ok = "model.graph.sort" in sorts and any(s != "model.graph.sort" for s in sorts) and any(
